@@ -126,6 +126,16 @@ Theorem c10_pem_skip_unguarded_refuted :
 Proof. split; [exact select_skip_guarded_total|split; [exact select_skip_unguarded_panics|exact select_skip_unguarded_needs_both]]. Qed.
 Print Assumptions c10_pem_skip_unguarded_refuted.
 
+(* The pubkey form parameter of the two role paths (first value of a repeated parameter, empty = missing,
+   base64url without padding, PKIX DER): every list of values whose first value is empty, not base64url,
+   not a key or a weak key is a client error; a certificate is issued only for the key of the FIRST value. *)
+Theorem c10_role_parameter : forall path values,
+  ((forall kv r, values = PDer (Some kv) :: r -> validate (snd kv) = false) -> param_pipeline path values = ClientError) /\
+  (forall k, param_pipeline path values = Signed k ->
+             validate k = true /\ exists kv r, values = PDer (Some kv) :: r /\ snd kv = k).
+Proof. intros path values. split; [exact (param_pipeline_weak_is_client_error path values)|exact (param_pipeline_signed path values)]. Qed.
+Print Assumptions c10_role_parameter.
+
 (* Keymaster's own code on the structure of a (signature-verified) token never panics: for EVERY JSON
    value as payload - claims absent, null, of any other JSON type, arrays empty or nested - the claim
    extraction of getAuthInfoFromJWT returns a value or an error.  The model has an explicit Panic
